@@ -22,7 +22,7 @@ ALPHA = list("[]{},: \t\n") + list("0123456789") + list("abcxyz_-+%") + ["[", "]
 
 
 def budget(tier):
-    return 4000 if tier == "quick" else 80000
+    return 20000 if tier == "quick" else 200000
 
 
 def _readable_as_int(s):
